@@ -538,6 +538,104 @@ func init() {
 		return false
 	}
 
+	// sort.Slice / sort.SliceStable without reflectlite: stable insertion sort driven by the less closure
+	sortSlice := func(fr *frame, args []value) value {
+		x, ok := args[0].(iface)
+		if !ok {
+			unsup("sort.Slice on a non-interface argument")
+		}
+		cells, ok := x.v.([]value)
+		if !ok {
+			unsup("sort.Slice on %T", x.v)
+		}
+		less := args[1]
+		lt := func(a, b int) bool {
+			r := call(fr.i, fr, 0, less, []value{a, b})
+			switch r := r.(type) {
+			case bool:
+				return r
+			case sym:
+				return fr.i.branch(r.t)
+			}
+			unsup("sort less function returned %T", r)
+			return false
+		}
+		for a := 1; a < len(cells); a++ {
+			for b := a; b > 0 && lt(b, b-1); b-- {
+				fr.i.logStore(&cells[b])
+				fr.i.logStore(&cells[b-1])
+				cells[b], cells[b-1] = cells[b-1], cells[b]
+			}
+		}
+		return nil
+	}
+	intrinsics["sort.SliceStable"] = sortSlice
+	intrinsics["sort.Slice"] = sortSlice
+	// strconv.AppendFloat: contract stub — the text comes from the harness (constrained to the documented format)
+	intrinsics["strconv.AppendFloat"] = func(fr *frame, args []value) value {
+		r := fr.i.run
+		g, ok := r.ghostFlags["strconv.AppendFloat"]
+		if !ok {
+			return notHandled{}
+		}
+		dst := args[0].([]value)
+		var extra []value
+		switch t := g.(type) {
+		case string:
+			extra = strBytes(t)
+		case symstr:
+			extra = []value(t)
+		case []value:
+			extra = t
+		default:
+			unsup("AppendFloat stub value of type %T", g)
+		}
+		fr.i.logAppend(dst, len(extra))
+		return append(dst, extra...)
+	}
+
+	// reflect.ValueOf is only met while building error values (json.UnsupportedValueError): zero Value
+	intrinsics["reflect.ValueOf"] = func(fr *frame, args []value) value {
+		pkg := fr.i.prog.ImportedPackage("reflect")
+		if pkg == nil || pkg.Type("Value") == nil {
+			unsup("reflect.ValueOf")
+		}
+		return zero(pkg.Type("Value").Type())
+	}
+
+	// encoding/json.Decoder token source: contract stub fed by the harness (vrt.SetStub("json.tokens", []any{...}))
+	intrinsics["encoding/json.NewDecoder"] = func(fr *frame, args []value) value {
+		if _, ok := fr.i.run.ghostFlags["json.tokens"]; !ok {
+			return notHandled{}
+		}
+		pkg := fr.i.prog.ImportedPackage("encoding/json")
+		var cell value = zero(pkg.Type("Decoder").Type())
+		fr.i.run.ghostFlags["json.pos"] = 0
+		return &cell
+	}
+	intrinsics["(*encoding/json.Decoder).UseNumber"] = func(fr *frame, args []value) value {
+		if _, ok := fr.i.run.ghostFlags["json.tokens"]; !ok {
+			return notHandled{}
+		}
+		return nil
+	}
+	intrinsics["(*encoding/json.Decoder).Token"] = func(fr *frame, args []value) value {
+		r := fr.i.run
+		toks, ok := r.ghostFlags["json.tokens"]
+		if !ok {
+			return notHandled{}
+		}
+		list := toks.([]value)
+		pos := r.ghostFlags["json.pos"].(int)
+		if pos >= len(list) {
+			iop := fr.i.prog.ImportedPackage("io")
+			eof := *fr.i.globals[iop.Var("EOF")]
+			return tuple{iface{}, eof}
+		}
+		r.ghostFlags["json.pos"] = pos + 1
+		return tuple{list[pos], iface{}}
+	}
+
 	// errors / fmt: opaque error objects
 	intrinsics["fmt.Errorf"] = func(fr *frame, args []value) value {
 		var wrapped value = iface{}
